@@ -19,38 +19,45 @@ structure Grow (s s' : BSt) : Prop where
   reg : ∀ i ∈ s.registry, i ∈ s'.registry
   buf : ∀ j, (s.th j).buf <+: (s'.th j).buf
   chain : ∀ j, chain (s.th j) <+: chain (s'.th j)
+  acc : ∀ j, (s.th j).accepted <+: (s'.th j).accepted
 
 theorem Grow.refl (s : BSt) : Grow s s :=
-  ⟨rfl, Nat.le_refl _, fun _ h => h, fun _ => List.prefix_refl _, fun _ => List.prefix_refl _⟩
+  ⟨rfl, Nat.le_refl _, fun _ h => h, fun _ => List.prefix_refl _, fun _ => List.prefix_refl _, fun _ => List.prefix_refl _⟩
 
 theorem Grow.trans {a b c : BSt} (h1 : Grow a b) (h2 : Grow b c) : Grow a c :=
   ⟨h2.cfg.trans h1.cfg, Nat.le_trans h1.now h2.now, fun i hi => h2.reg i (h1.reg i hi),
-   fun j => (h1.buf j).trans (h2.buf j), fun j => (h1.chain j).trans (h2.chain j)⟩
+   fun j => (h1.buf j).trans (h2.buf j), fun j => (h1.chain j).trans (h2.chain j), fun j => (h1.acc j).trans (h2.acc j)⟩
 
 theorem Grow.ofEq {s s' : BSt} (h1 : s'.ths = s.ths) (h2 : s'.cfg = s.cfg) (h3 : s'.now = s.now)
     (h4 : s'.registry = s.registry) : Grow s s' := by
   have : ∀ j, s'.th j = s.th j := fun j => by simp only [BSt.th, h1]
   exact ⟨h2, Nat.le_of_eq h3.symm, fun i hi => by rw [h4]; exact hi, fun j => by rw [this]; exact List.prefix_refl _,
-    fun j => by rw [this]; exact List.prefix_refl _⟩
+    fun j => by rw [this]; exact List.prefix_refl _, fun j => by rw [this]; exact List.prefix_refl _⟩
 
 theorem Fr.grow {s s' : BSt} (h : Fr s s') : Grow s s' :=
   ⟨h.cfg, Nat.le_of_eq h.now.symm, fun i hi => by rw [h.reg]; exact hi,
    fun j => by obtain ⟨l, e⟩ := (h.th j).buf; rw [e]; exact List.prefix_append _ _,
-   fun j => by rw [(h.th j).chain]; exact List.prefix_refl _⟩
+   fun j => by rw [(h.th j).chain]; exact List.prefix_refl _,
+   fun j => by rw [(h.th j).acc]; exact List.prefix_refl _⟩
 
 theorem Grow.setTh (s : BSt) (i : Nat) (f : Th → Th) (hb : (s.th i).buf <+: (f (s.th i)).buf)
-    (hc : PB.chain (s.th i) <+: PB.chain (f (s.th i))) : Grow s (s.setTh i f) := by
-  refine ⟨rfl, Nat.le_refl _, fun _ h => h, fun j => ?_, fun j => ?_⟩
+    (hc : PB.chain (s.th i) <+: PB.chain (f (s.th i))) (ha : (s.th i).accepted <+: (f (s.th i)).accepted) :
+    Grow s (s.setTh i f) := by
+  refine ⟨rfl, Nat.le_refl _, fun _ h => h, fun j => ?_, fun j => ?_, fun j => ?_⟩
   · rcases th_setTh_cases s i j f with h1 | ⟨rfl, _, h1⟩
     · rw [h1]; exact List.prefix_refl _
     · rw [h1]; exact hb
   · rcases th_setTh_cases s i j f with h1 | ⟨rfl, _, h1⟩
     · rw [h1]; exact List.prefix_refl _
     · rw [h1]; exact hc
+  · rcases th_setTh_cases s i j f with h1 | ⟨rfl, _, h1⟩
+    · rw [h1]; exact List.prefix_refl _
+    · rw [h1]; exact ha
 
-theorem Grow.setTh_same (s : BSt) (i : Nat) (f : Th → Th) (hb : ∀ t, (f t).buf = t.buf) (hq : ∀ t, (f t).qStmts = t.qStmts) :
-    Grow s (s.setTh i f) :=
+theorem Grow.setTh_same (s : BSt) (i : Nat) (f : Th → Th) (hb : ∀ t, (f t).buf = t.buf) (hq : ∀ t, (f t).qStmts = t.qStmts)
+    (ha : ∀ t, (f t).accepted = t.accepted) : Grow s (s.setTh i f) :=
   Grow.setTh s i f (by rw [hb]; exact List.prefix_refl _) (by simp only [PB.chain, hb, hq]; exact List.prefix_refl _)
+    (by rw [ha]; exact List.prefix_refl _)
 
 theorem Grow.buf_ne {s s' : BSt} (h : Grow s s') {j : Nat} (hb : (s.th j).buf ≠ []) : (s'.th j).buf ≠ [] := by
   obtain ⟨l, e⟩ := h.buf j
@@ -78,7 +85,10 @@ theorem grow_ensureCtx (s : BSt) (a : Nat) : Grow s (Backend.ensureCtx s a).1 :=
     have hth : ∀ j, ((({ s with ths := s.ths ++ [mkTh s.cfg a], registry := s.registry ++ [s.ths.length], newFlag := true } : BSt).setActor a
         (fun x => { x with ctx := some s.ths.length })).th j) = if j = s.ths.length then mkTh s.cfg a else s.th j :=
       fun j => th_append s _ j
-    refine ⟨rfl, Nat.le_refl _, fun i hi => List.mem_append_left _ hi, fun j => ?_, fun j => ?_⟩
+    refine ⟨rfl, Nat.le_refl _, fun i hi => List.mem_append_left _ hi, fun j => ?_, fun j => ?_, fun j => ?_⟩
+    · rw [hth]; split
+      · rename_i hj; rw [hj, th_lt_or_default s _ (Nat.le_refl _)]; exact List.prefix_refl _
+      · exact List.prefix_refl _
     · rw [hth]; split
       · rename_i hj; rw [hj, th_lt_or_default s _ (Nat.le_refl _)]; exact List.prefix_refl _
       · exact List.prefix_refl _
@@ -90,10 +100,10 @@ theorem grow_tryEnq (s : BSt) (ci : Nat) (st : Stmt) : Grow s (Backend.tryEnq s 
   unfold Backend.tryEnq
   simp only
   split
-  · refine Grow.setTh s ci _ (List.prefix_refl _) ?_
+  · refine Grow.setTh s ci _ (List.prefix_refl _) ?_ (List.prefix_append _ _)
     show (s.th ci).buf ++ (s.th ci).qStmts <+: (s.th ci).buf ++ ((s.th ci).qStmts ++ [{ st with enqAt := s.now }])
     rw [← List.append_assoc]; exact List.prefix_append _ _
-  · exact Grow.setTh_same s ci _ (fun _ => rfl) (fun _ => rfl)
+  · exact Grow.setTh_same s ci _ (fun _ => rfl) (fun _ => rfl) (fun _ => rfl)
 
 theorem grow_afterEnq (s : BSt) (a : Nat) (st : Stmt) (cont : Nat) : Grow s (Backend.afterEnq s a st cont).1 := by
   unfold Backend.afterEnq
@@ -112,9 +122,9 @@ theorem grow_enqFlow (s : BSt) (a : Nat) (st : Stmt) (cont : Nat) (first initial
   unfold Backend.enqFlow
   simp only [he, ht]
   have hb : ∀ (y : BSt) (g : Th → Th), (∀ t, (g t).buf = t.buf) → (∀ t, (g t).qStmts = t.qStmts) →
-      Grow y (if isLogKind st.kind = true then y.setTh ci g else y) := by
-    intro y g hg1 hg2; split
-    · exact Grow.setTh_same y ci g hg1 hg2
+      (∀ t, (g t).accepted = t.accepted) → Grow y (if isLogKind st.kind = true then y.setTh ci g else y) := by
+    intro y g hg1 hg2 hg3; split
+    · exact Grow.setTh_same y ci g hg1 hg2 hg3
     · exact Grow.refl _
   split
   · refine Grow.trans ?_ (grow_afterEnq _ a st cont)
@@ -123,14 +133,14 @@ theorem grow_enqFlow (s : BSt) (a : Nat) (st : Stmt) (cont : Nat) (first initial
     · split
       · show Grow s (BSt.setActor _ _ _)
         refine Grow.trans ?_ (Grow.setActor _ _ _)
-        exact h12.trans (hb s2 _ (fun _ => rfl) (fun _ => rfl))
+        exact h12.trans (hb s2 _ (fun _ => rfl) (fun _ => rfl) (fun _ => rfl))
       · show Grow s (BSt.setActor _ _ _)
         refine Grow.trans ?_ (Grow.setActor _ _ _)
-        exact h12.trans (hb s2 _ (fun _ => rfl) (fun _ => rfl))
+        exact h12.trans (hb s2 _ (fun _ => rfl) (fun _ => rfl) (fun _ => rfl))
     · show Grow s (BSt.setActor _ _ _)
       refine Grow.trans ?_ (Grow.setActor _ _ _)
       split
-      · exact h12.trans (hb s2 _ (fun _ => rfl) (fun _ => rfl))
+      · exact h12.trans (hb s2 _ (fun _ => rfl) (fun _ => rfl) (fun _ => rfl))
       · exact h12
 
 theorem grow_frontCall (s : BSt) (a lgi : Nat) (kind : Kind) (lvl len cont : Nat) (dyn : Bool) (id : Nat) (named : Bool) :
@@ -173,7 +183,8 @@ theorem reapSinks_core (s : BSt) (l : List Nat) :
 
 theorem grow_applyFront (s : BSt) (f : FOp) : Grow s (Backend.applyFront s f).1 := by
   cases f with
-  | tick dt => exact ⟨rfl, Nat.le_add_right _ _, fun _ h => h, fun _ => List.prefix_refl _, fun _ => List.prefix_refl _⟩
+  | tick dt => exact ⟨rfl, Nat.le_add_right _ _, fun _ h => h, fun _ => List.prefix_refl _, fun _ => List.prefix_refl _,
+      fun _ => List.prefix_refl _⟩
   | tstart a => simp only [Backend.applyFront]; split <;> exact Grow.ofEq rfl rfl rfl rfl
   | texit a =>
     simp only [Backend.applyFront]
@@ -183,7 +194,7 @@ theorem grow_applyFront (s : BSt) (f : FOp) : Grow s (Backend.applyFront s f).1 
       · rename_i i _
         have h1 : Grow s (s.setActor a (fun x => { x with alive := false })) := Grow.ofEq rfl rfl rfl rfl
         have h2 := h1.trans (Grow.setTh_same (s.setActor a (fun x => { x with alive := false })) i
-          (fun t => { t with valid := false }) (fun _ => rfl) (fun _ => rfl))
+          (fun t => { t with valid := false }) (fun _ => rfl) (fun _ => rfl) (fun _ => rfl))
         exact h2.trans (Grow.ofEq rfl rfl rfl rfl)
       · exact Grow.ofEq rfl rfl rfl rfl
   | resume a =>
